@@ -12,4 +12,4 @@ NOTES = ("Technique family: machine-checked proof in Lean 4. Each check = kernel
 NOT_APPLICABLE = {}
 
 # properties whose check exists but is being adapted right now (not claimed in MANIFEST until it is green again)
-PENDING = {"C09": "check built (Lean model + theorems + harness); being adapted to two fix: commits in /repo; not claimed until green"}
+PENDING = {}
